@@ -1,3 +1,5 @@
 //! Small monitors shared by several properties.
 
+pub mod baton;
+pub mod linz;
 pub mod watchdog;
